@@ -129,12 +129,30 @@ func sxInt(v *sx) (*big.Int, bool) {
 	return nil, false
 }
 
+// modelPins keeps successive model queries of one obligation consistent:
+// every value already read is asserted in later queries.
+var modelPins = map[*Obligation][]string{}
+
+func sxString(v *sx) string {
+	if v.list == nil {
+		return v.atom
+	}
+	var parts []string
+	for _, c := range v.list {
+		parts = append(parts, sxString(c))
+	}
+	return "(" + strings.Join(parts, " ") + ")"
+}
+
 // getValues re-runs the query with (get-value) for the given terms.
 func getValues(o *Obligation, terms []string, timeout int) (map[string]*sx, error) {
 	if len(terms) == 0 {
 		return map[string]*sx{}, nil
 	}
+	saved := o.Extra
+	o.Extra = append(append([]string{}, o.Extra...), modelPins[o]...)
 	q := o.query(false, true) + "(get-value (" + strings.Join(terms, " ") + "))\n"
+	o.Extra = saved
 	f, err := os.CreateTemp("", "govc-model-*.smt2")
 	if err != nil {
 		return nil, err
@@ -161,6 +179,10 @@ func getValues(o *Obligation, terms []string, timeout int) (map[string]*sx, erro
 	for i, pair := range xs[0].list {
 		if len(pair.list) == 2 && i < len(terms) {
 			res[terms[i]] = pair.list[1]
+			vs := sxString(pair.list[1])
+			if !strings.Contains(vs, "lambda") && !strings.Contains(vs, "as const") && len(vs) < 200 {
+				modelPins[o] = append(modelPins[o], "(assert (= "+terms[i]+" "+vs+"))")
+			}
 		}
 	}
 	return res, nil
@@ -368,7 +390,7 @@ func (w *World) buildReplay(dir, id string, r *Result, why string) *replayFile {
 	} else {
 		rf.SolverOut = r.Reason
 	}
-	if r.Status != "refuted" {
+	if r.Status != "refuted" && r.Status != "refuted-candidate" {
 		rf.ReplayNote = "solver gave no counterexample (" + r.Status + ")"
 		return rf
 	}
@@ -381,14 +403,40 @@ func (w *World) buildReplay(dir, id string, r *Result, why string) *replayFile {
 	if tmpl := w.replayTemplate(fn); tmpl != nil {
 		return tmpl(w, dir, id, r, rf)
 	}
-	if fn.Signature.Recv() != nil || len(fn.FreeVars) > 0 || fn.Parent() != nil {
-		rf.ReplayNote = "function has a receiver or is a closure: no generic replay harness"
+	tm := w.recvTemplate(fn)
+	if (fn.Signature.Recv() != nil && tm == nil) || len(fn.FreeVars) > 0 || fn.Parent() != nil {
+		rf.ReplayNote = "function has a receiver without a replay template, or is a closure: no replay harness"
 		return rf
 	}
 	var argExprs []string
 	rf.Inputs = map[string]interface{}{}
 	entry := &State{H: map[string]string{}}
-	for _, p := range fn.Params {
+	setup := ""
+	extraImports := ""
+	params := fn.Params
+	callee := fn.Name()
+	if tm != nil {
+		for _, imp := range tm.imports {
+			extraImports += fmt.Sprintf("\t%q\n", imp)
+		}
+		for name, rexpr := range tm.streams {
+			data, err := w.modelStream(o, rexpr)
+			if err != nil {
+				rf.ReplayNote = "stream " + rexpr + " not extractable: " + err.Error()
+				return rf
+			}
+			var parts []string
+			for _, b := range data {
+				parts = append(parts, fmt.Sprint(b))
+			}
+			setup += fmt.Sprintf("\t%s := []byte{%s}\n", name, strings.Join(parts, ", "))
+			rf.Inputs["stream "+rexpr] = parts
+		}
+		setup += "\trecv := " + tm.recv + "\n"
+		params = fn.Params[1:]
+		callee = "recv." + fn.Name()
+	}
+	for _, p := range params {
 		v := c.paramVals[p.Name()]
 		g, js, err := w.modelValue(o, v.T, p.Type(), entry)
 		if err != nil || g == "" {
@@ -418,7 +466,7 @@ func (w *World) buildReplay(dir, id string, r *Result, why string) *replayFile {
 		resNames = append(resNames, fmt.Sprintf("r%d", i))
 		prints = append(prints, fmt.Sprintf("govcShow(r%d)", i))
 	}
-	callStmt := fmt.Sprintf("%s(%s)", fn.Name(), strings.Join(argExprs, ", "))
+	callStmt := fmt.Sprintf("%s(%s)", callee, strings.Join(argExprs, ", "))
 	if len(resNames) > 0 {
 		callStmt = strings.Join(resNames, ", ") + " := " + callStmt
 	}
@@ -428,7 +476,7 @@ import (
 	"encoding/json"
 	"fmt"
 	"testing"
-)
+%s)
 
 func govcShow(v interface{}) interface{} {
 	switch x := v.(type) {
@@ -448,6 +496,10 @@ func govcShow(v interface{}) interface{} {
 	case int, int64, int32, int16, int8, uint, uint64, uint32, uint16, uint8:
 		return fmt.Sprint(x)
 	}
+	// named integer types
+	if s := fmt.Sprintf("%%d", v); len(s) > 0 && s[0] != '%%' && s[0] != '[' && s[0] != '{' && s[0] != '&' {
+		return s
+	}
 	return v
 }
 
@@ -457,12 +509,12 @@ func TestGovcReplay(t *testing.T) {
 			fmt.Printf("GOVC-REPLAY-PANIC %%v\n", r)
 		}
 	}()
-	%s
+%s	%s
 	outs := []interface{}{%s}
 	js, _ := json.Marshal(outs)
 	fmt.Printf("GOVC-REPLAY-OUT %%s\n", js)
 }
-`, fn.Pkg.Pkg.Name(), callStmt, strings.Join(prints, ", "))
+`, fn.Pkg.Pkg.Name(), extraImports, setup, callStmt, strings.Join(prints, ", "))
 	testPath := filepath.Join(dir, safeName(o.Name)+"_test.go")
 	os.WriteFile(testPath, []byte(src), 0644)
 	rf.TestFile = testPath
@@ -529,4 +581,97 @@ type replayTmpl func(w *World, dir, id string, r *Result, rf *replayFile) *repla
 
 func (w *World) replayTemplate(fn *ssa.Function) replayTmpl {
 	return nil
+}
+
+// recvTmpl says how to build a real receiver from the model's ghost state.
+type recvTmpl struct {
+	match   string
+	imports []string
+	streams map[string]string // Go variable -> spec expression of an io.Reader
+	recv    string
+}
+
+var recvTemplates = []recvTmpl{
+	{match: "internal/cbor.(*Decoder).", imports: []string{"bytes"}, streams: map[string]string{"data": "d.r"}, recv: "NewDecoder(bytes.NewReader(data))"},
+}
+
+func (w *World) recvTemplate(fn *ssa.Function) *recvTmpl {
+	k := shortFuncKey(fn)
+	for i := range recvTemplates {
+		if strings.HasPrefix(k, recvTemplates[i].match) {
+			return &recvTemplates[i]
+		}
+	}
+	return nil
+}
+
+// modelStream extracts the bytes a ghost reader still has to deliver,
+// preferring models with a short remaining stream.
+func (w *World) modelStream(o *Obligation, rexpr string) ([]byte, error) {
+	c := o.Ctx
+	term := func(src string) (string, error) {
+		e, err := ParseExpr(src)
+		if err != nil {
+			return "", err
+		}
+		before := len(c.Log)
+		v, err := c.entryEnv.term(e)
+		extra := append([]string{}, c.Log[before:]...)
+		c.Log = c.Log[:before]
+		o.Extra = append(o.Extra, extra...)
+		return v.T, err
+	}
+	pos, err := term("spos(" + rexpr + ")")
+	if err != nil {
+		return nil, err
+	}
+	end, err := term("send(" + rexpr + ")")
+	if err != nil {
+		return nil, err
+	}
+	rem := c.isub(end, pos)
+	short := "(assert " + and(c.ile(c.idxLit(0), rem), c.ile(rem, c.idxLit(64))) + ")"
+	saved := o.Extra
+	o.Extra = append(append([]string{}, saved...), short)
+	vs, err := getValues(o, []string{pos, end}, 20)
+	if err != nil {
+		o.Extra = saved
+		vs, err = getValues(o, []string{pos, end}, 20)
+		if err != nil {
+			return nil, err
+		}
+	} else {
+		o.Extra = saved
+		modelPins[o] = append(modelPins[o], short)
+	}
+	p, ok1 := sxInt(vs[pos])
+	e, ok2 := sxInt(vs[end])
+	if !ok1 || !ok2 {
+		return nil, fmt.Errorf("no position values")
+	}
+	p = signedOf(p, types.Typ[types.Int64])
+	e = signedOf(e, types.Typ[types.Int64])
+	n := new(big.Int).Sub(e, p)
+	if n.Sign() < 0 || n.Cmp(big.NewInt(4096)) > 0 {
+		return nil, fmt.Errorf("remaining stream length %v not replayable", n)
+	}
+	var terms []string
+	for i := int64(0); i < n.Int64(); i++ {
+		t, err := term(fmt.Sprintf("sdata(%s)[spos(%s) + %d]", rexpr, rexpr, i))
+		if err != nil {
+			return nil, err
+		}
+		terms = append(terms, t)
+	}
+	vs, err = getValues(o, terms, 30)
+	if err != nil {
+		return nil, err
+	}
+	out := make([]byte, n.Int64())
+	for i, t := range terms {
+		if b, ok := sxInt(vs[t]); ok {
+			out[i] = byte(b.Int64() & 255)
+		}
+	}
+	return out, nil
 }
